@@ -10,6 +10,6 @@ CONSTANTS
   Handoff = FALSE
   SignalFIFO = FALSE
   Defects = {}
-INVARIANTS Conservation RingOK MirrorOK ParkedOK ClosedNoWaiters NoStuck NoSleepWhileGlobalWork ThiefEmpty
+INVARIANTS Conservation RingOK MirrorOK ParkedOK ClosedNoWaiters NoStuck NoSleepWhileGlobalWork NotHidden ThiefEmpty
 PROPERTIES GlobalFIFO
 CHECK_DEADLOCK TRUE
